@@ -16,8 +16,8 @@ from .inputs import InputFactory
 from .interp import Interp, MergeFail
 from .model import Builtin, ClassModel, FunctionModel, ModuleModel
 
-PROVE_TIMEOUT_MS = 60000
-QUANT_TIMEOUT_MS = 20000
+QF_RLIMIT = 600_000_000
+Q_RLIMIT = 120_000_000
 
 
 class ContractSpec:
@@ -85,6 +85,8 @@ class Verifier:
         self.covers = {}
         self.unsupported = {}
         self.dump_dir = None
+        self.native_only = {}
+        self.seq = 0
         self.I.prove_hook = self.check_goal
         self.install_dsl()
 
@@ -139,6 +141,16 @@ class Verifier:
             if self.state.phase == 'post':
                 name, thunk = a[0], a[1]
                 self.check_clause(name, thunk)
+
+        @b('ensures_native')
+        def _ensures_native(I_, a, k):
+            # clause evaluated only by the native harness (bounded stand-in, e.g. counting); recorded
+            if self.state.phase == 'post':
+                self.native_only.setdefault(self.current.name, set()).add(a[0])
+
+        @b('ghost_seq')
+        def _ghost_seq(I_, a, k):
+            return call_k(a[0], a[1])['seq']
 
         @b('check')
         def _check(I_, a, k):
@@ -335,7 +347,8 @@ class Verifier:
 
     # ------------------------------------------------------------- obligations
     def oid(self, clause):
-        return f'{self.current.name}/{clause}'
+        mod = self.current.fn.module.name.split('.')[-1]
+        return f'{mod}.{self.current.name}/{clause}'
 
     def check_clause(self, name, thunk):
         I = self.I
@@ -395,30 +408,110 @@ class Verifier:
             ob.detail = 'solver returned unknown'
 
     def prove(self, goal):
+        """portfolio: budgets are z3 resource limits (deterministic), not wall-clock time, so that
+        verdicts do not depend on machine load; wall-clock timeouts are only a distant safety net"""
         I = self.I
         from .ctx import has_quant
         quant = I.nquant > 0 or has_quant(goal)
-        if quant:
-            s0 = z3.Solver()
-            s0.set('timeout', QUANT_TIMEOUT_MS)
-            s0.set('smt.mbqi', False)
+        neg = z3.Not(zbool(goal))
+
+        def mk(mbqi, seed, rlimit):
+            s_ = z3.Solver()
+            s_.set('timeout', 600000)
+            s_.set('rlimit', rlimit)
+            if not mbqi:
+                s_.set('smt.mbqi', False)
+            if seed:
+                s_.set('smt.random_seed', seed)
             for f in I.pc:
-                s0.add(f)
-            s0.add(z3.Not(zbool(goal)))
-            if STATS.timed(lambda: s0.check()) == z3.unsat:
+                s_.add(f)
+            s_.add(neg)
+            return s_
+
+        if not quant:
+            s = mk(True, 0, QF_RLIMIT)
+            r = STATS.timed(lambda: s.check())
+            self.note_rlimit(s, 'qf', r)
+            if r == z3.unsat:
                 return 'unsat', None
-        s = z3.Solver()
-        s.set('timeout', PROVE_TIMEOUT_MS if not quant else 10000)
-        for f in I.pc:
-            s.add(f)
-        s.add(z3.Not(zbool(goal)))
+            if r == z3.sat:
+                return 'sat', self.minimise(s)
+            return 'unknown', None
+        # quantified: E-matching only first (refutations are found fast), several seeds
+        for seed in (0, 1, 2):
+            s0 = mk(False, seed, Q_RLIMIT)
+            r0 = STATS.timed(lambda: s0.check())
+            self.note_rlimit(s0, f'q0s{seed}', r0)
+            if r0 == z3.unsat:
+                return 'unsat', None
+        s = mk(True, 0, Q_RLIMIT)
         r = STATS.timed(lambda: s.check())
+        self.note_rlimit(s, 'q1', r)
         if r == z3.unsat:
             return 'unsat', None
         if r == z3.sat:
-            m = self.minimise(s)
-            return 'sat', m
+            return 'sat', self.minimise(s)
+        # second back end
+        if self.cvc5_refutes(I.pc, neg):
+            self.backend_used = 'cvc5'
+            return 'unsat', None
+        # unknown (quantifiers): look for a small counterexample by finite grounding
+        st = self.state
+        sizes, coords = [], []
+        for si in st.inputs.values():
+            sizes += si.sizes
+            coords += si.coords
+        if sizes:
+            from .ground import ground
+            for B in (1, 2):
+                try:
+                    g = z3.Solver()
+                    g.set('timeout', 30000)
+                    cache = {}
+                    for f in list(I.pc) + [neg]:
+                        g.add(ground(f, -1, B + 1, cache))
+                    for t in sizes:
+                        g.add(t == B)
+                    for t in coords:
+                        g.add(t >= -1, t <= B)
+                    if STATS.timed(lambda: g.check()) == z3.sat:
+                        return 'sat', g.model()
+                except (MemoryError, z3.Z3Exception):
+                    break
         return 'unknown', None
+
+    def cvc5_refutes(self, pc, neg):
+        import subprocess, tempfile, os
+        s = z3.Solver()
+        for f in pc:
+            s.add(f)
+        s.add(neg)
+        try:
+            txt = '(set-logic ALL)\n' + s.to_smt2()
+            with tempfile.NamedTemporaryFile('w', suffix='.smt2', delete=False) as f:
+                f.write(txt)
+                path = f.name
+            try:
+                p = subprocess.run(['cvc5', '--lang', 'smt2', '--tlimit=60000', path], capture_output=True, text=True,
+                                   timeout=90)
+                return p.stdout.strip().splitlines()[:1] == ['unsat']
+            finally:
+                os.remove(path)
+        except Exception:
+            return False
+
+    def note_rlimit(self, s, kind, r):
+        try:
+            st = s.statistics()
+            rl = st.get_key_value('rlimit count') if 'rlimit count' in st.keys() else 0
+        except Exception:
+            rl = 0
+        import os
+        if os.environ.get('PYVC_RLIMIT_LOG'):
+            with open(os.environ['PYVC_RLIMIT_LOG'], 'a') as f:
+                last = getattr(self, '_last_rl', 0)
+                f.write(f'{kind} {r} {rl - last if rl >= last else rl} {self.current.name}\n')
+                self._last_rl = rl
 
     def minimise(self, s):
         """look for a small model: bound sizes and coordinates"""
@@ -467,7 +560,8 @@ class Verifier:
                 si = self.factory.make(ret, f'{sname.split(":")[-1].split(".")[-1]}_r{len(calls)}')
                 st.inputs[f'stub:{sname}:{len(calls)}'] = si
                 tok = si.value
-            calls.append({'args': list(args), 'kwargs': dict(kwargs), 'result': tok})
+            self.factory.seq += 1
+            calls.append({'args': list(args), 'kwargs': dict(kwargs), 'result': tok, 'seq': self.factory.seq})
             return tok
         return hook
 
@@ -485,12 +579,16 @@ class Verifier:
         def thunk():
             st = RunState()
             self.state = st
+            self.factory.seq = 0
             args = []
             kwargs = {}
             byname = {}
             ghost = spec.opts.get('ghost', [])
             for pname, sort in spec.args.items():
-                si = self.factory.make(sort, pname)
+                try:
+                    si = self.factory.make(sort, pname)
+                except PyRaise:
+                    raise PathEnd()  # constructor of an input rejects these values: not an input
                 st.inputs[pname] = si
                 byname[pname] = si.value
                 if pname in ghost:
